@@ -10,6 +10,7 @@ cancellation — the "plus scheduling slack" of the statement.
 -/
 import FhVerif.Proofs.Dialer
 import FhVerif.Gen.Consts
+import FhVerif.Gen.DialerCtx
 
 namespace Fh.Props.C41
 open Fh Fh.Model.Dialer Fh.Proofs.Dialer
@@ -111,6 +112,15 @@ theorem dial_error_names_last_address (addrs : List Bytes) (hasSem : Bool) (idx 
   (err_names_last nextFixed addrs hasSem env addrs.length idx 0 none).2 hn e h
 
 /-! ### returning in time (relative to the assumed promptness of timers and context cancellation) -/
+
+/-- The deadline of the connect is the ABSOLUTE deadline `dial` computed on entry (`TimedEnv.deadline`, the same value
+    the semaphore timer is derived from), not a fresh relative timeout started after the wait for a slot.  Pinned to
+    the source by a fact regenerated from tcpdialer.go on every run: the context handed to DialContext is built by
+    `context.WithDeadline(…, deadline)` with `deadline` the (never reassigned) parameter of tryDial.  This is what
+    makes assumption `Prompt.dial_by_ctx` speak about `deadline` and lets the time spent waiting for a slot count
+    against the timeout. -/
+theorem connect_context_uses_absolute_deadline :
+    Gen.tryDialCtx = ("WithDeadline", "deadline") ∧ Gen.tryDialDeadlineIsParam = true := by decide
 
 /-- If timers and context cancellation are at most `slack` late (`Prompt`), `tryDial` returns no later than its
     deadline plus twice that slack (immediately when the deadline had already passed on entry). -/
